@@ -352,6 +352,9 @@ class Engine:
             if sv.k in ("int", "bool"):
                 return z3.BoolVal(False)
             raise Unsupported("isinstance(_, slice) on non-int")
+        from .schema import NAMEDTUPLES
+        if clsname in NAMEDTUPLES:
+            return z3.BoolVal(sv.cls == clsname)
         ci = self.prog.find_class(clsname)
         if ci is None:
             special = S.isinstance_special(self, sv, clsname, st)
@@ -801,8 +804,8 @@ class Engine:
             self.assign(node.target, elem, s)
             res = self.exec_stmts(node.body, s)
             for (s2, ctrl) in res:
-                if ctrl is not None and ctrl[0] in ("return", "break"):
-                    raise Unsupported("return/break inside %s needs a loop invariant" % where)
+                if ctrl is not None and ctrl[0] == "break":
+                    raise Unsupported("break inside %s needs a loop invariant" % where)
             return res
 
         outs = self.iterate_stateless(st, bags, body, where, collect="yields")
@@ -844,6 +847,7 @@ class Engine:
         rkeys = set(REGION_KEYS)
         outs = []
         new_bags = []
+        ret_conds = []
         nbags0 = len(st.bags)
         base = st
         if use_region:
@@ -870,6 +874,20 @@ class Engine:
                 else:
                     (s2, ctrl), val = item, None
                 if ctrl is not None and ctrl[0] == "raise":
+                    outs.append((s2, ctrl))
+                    continue
+                if ctrl is not None and ctrl[0] == "return":
+                    # search loop: some iteration returns.  (Over-approximation: any iteration whose own path
+                    # returns may be the first to do so.)  The fall-through path learns that none did.
+                    for key, arr in s2.heap.items():
+                        before = heap_before.get(key)
+                        if before is not None and not z3.eq(arr, before):
+                            raise Unsupported("%s: returning iteration writes heap field %s" % (where, key))
+                    if len(s2.bags) > nbags0:
+                        raise Unsupported("%s mixes yield and return" % where)
+                    dec, defs = local_cond(s2, len(st.pc), mark)
+                    aux = [x for x in consts_since([dec, defs], mark) if not any(x.eq(y) for y in news)]
+                    ret_conds.append((list(news) + aux, z3.And(defs, dec)))
                     outs.append((s2, ctrl))
                     continue
                 wrote_region = False
@@ -910,6 +928,8 @@ class Engine:
                 old = self.field_array(st, key)
                 st.heap[key] = fresh("HR_" + _san(key), old.sort())
             st.define(self.cur_contract.region_invariant(Ctx(self, dict(st.heap))))
+        for (vs, f) in ret_conds:
+            st.assume(z3.ForAll(vs, z3.Not(f)) if vs else z3.Not(f), "loop completed: no iteration returned")
         if collect == "values":
             self._last_value_bags = new_bags
         else:
@@ -1072,15 +1092,27 @@ class Engine:
         vals = []
         conds = []
         cur = st
+        guards = []
         for i, e in enumerate(node.values):
+            n_before = len(cur.pc)
             v = self.eval(e, cur)
+            if cur is not st:
+                # facts learned while evaluating a later operand (callee postconditions, definitions) hold
+                # whenever that operand is evaluated at all: export them to the enclosing state under the guard
+                for key, arr in cur.heap.items():
+                    if key in st.heap and not z3.eq(arr, st.heap[key]):
+                        raise Unsupported("heap effect inside a short-circuit operand")
+                g = z3.And(*guards)
+                for j in range(n_before, len(cur.pc)):
+                    st.assume(z3.Implies(g, cur.pc[j]), decision=j not in cur.nondec)
             vals.append(v)
             if i < len(node.values) - 1:
                 t = self.truthy(v, cur)
                 nxt = cur.fork()
-                nxt.assume(t if isinstance(node.op, ast.And) else z3.Not(t))
+                gt = t if isinstance(node.op, ast.And) else z3.Not(t)
+                nxt.assume(gt)
+                guards.append(gt)
                 conds.append(t)
-                self._check_pure(cur, nxt)
                 cur = nxt
         if all(v.k == "bool" for v in vals):
             ts = [v.t for v in vals]
@@ -1218,6 +1250,10 @@ class Engine:
         if k == "list":
             i = fresh("i", Int)
             return z3.Exists([i], z3.And(0 <= i, i < cont.x, z3.Select(cont.t, i) == to_val(item)))
+        if k == "nx_adj":
+            return self.schema.nx.adj_contains(self, cont, item, st)
+        if k == "nx_attr":
+            return self.schema.nx.attr_contains(self, cont, item, st)
         raise Unsupported("'in' on %s (cls=%s)" % (k, cont.cls))
 
     def e_Attribute(self, node, st):
@@ -1226,6 +1262,11 @@ class Engine:
 
     def get_attr(self, obj, attr, st):
         k = obj.k
+        from .schema import NAMEDTUPLES
+        if k in ("tuple", "val") and obj.cls in NAMEDTUPLES:
+            sp = self.schema.get_attr_special(self, obj, attr, st)
+            if sp is not None:
+                return sp
         if k == "descriptor":
             v = obj.x.get(attr)
             if v is None:
@@ -1287,7 +1328,11 @@ class Engine:
                 if attr in c2.methods:
                     return SV("boundmethod", x=(selfsv, c2.methods[attr], c2))
             raise Unsupported("super().%s not found in package classes" % attr)
-        if k in ("set", "list", "dict", "bytes", "str", "tuple", "gen", "seq"):
+        if k in ("tuple", "val") and obj.cls:
+            sp = self.schema.get_attr_special(self, obj, attr, st)
+            if sp is not None:
+                return sp
+        if k in ("set", "list", "dict", "bytes", "str", "tuple", "gen", "seq", "nx_keydict"):
             return SV("boundbuiltin", x=(obj, attr))
         if k == "val" and attr == "value" and obj.x == "enum":
             return sv_int(enum_(obj.t))
